@@ -30,7 +30,7 @@ def configs(tier):
             out.append({'model': 'shallowwater', 'flux': fl, 'bc': bc, 'timeout_ms': max(to, 60000) if fl == 'rusanov' else to, 'budget_s': max(bud, 290), 'lemma': not q, 'guided_tries': 3000, 'guided_min_size': 5})
         for fl in ('hlle', 'hllc'):
             for g in (['7/5'] if q else ['7/5', '2']):
-                out.append({'model': 'euler1d', 'flux': fl, 'bc': bc, 'gamma': g, 'timeout_ms': to, 'budget_s': bud, 'lemma': not q, 'guided_tries': 3000, 'guided_min_size': 5})
+                out.append({'model': 'euler1d', 'flux': fl, 'bc': bc, 'gamma': g, 'timeout_ms': to, 'budget_s': max(bud, 295), 'lemma': not q, 'guided_tries': 3000, 'guided_min_size': 5})
     return out
 
 
@@ -66,6 +66,10 @@ def harness(cfg, B):
     solver = fd.integration.explicit(mesh, rhs)
     solver.step(f, dt)
     kw = dict(meta={'sqrt_level': 0})
+    chain = cfg['flux'] in ('hll', 'hlle') and cfg.get('chain', True)
+    if chain:
+        _hll_chain(cfg, B, model, mname, prim, rhs, f, dt, dx, n)
+    kwm = dict(meta={'search_only': 'chain-A, chain-B, chain-C'}) if chain else kw
     if cfg['flux'] in ('hll', 'hlle') and cfg.get('lemma', True) and cfg['bc'] == 'per':
         # lemma chain: the wave-speed estimates of every face are located in the traced DAG (hints), cut to variables and only
         # their defining min/max inequalities and the bound by the one-sided speeds are kept (each proved on the real terms first)
@@ -105,8 +109,72 @@ def harness(cfg, B):
         kw = dict(method='split', hints=hints, cuts=list(range(len(hints))), facts=facts, meta={'split_budget_s': 200, 'expand_minmax': True})
     for i in range(n):
         if mname == 'shallowwater':
-            B.ob('depth>0[%d]' % i, 'lt', B.const(0), f.data[0][i], **kw)
+            B.ob('depth>0[%d]' % i, 'lt', B.const(0), f.data[0][i], **(kwm if not kw.get('method') else kw))
         else:
-            B.ob('density>0[%d]' % i, 'lt', B.const(0), f.data[0][i], **kw)
+            B.ob('density>0[%d]' % i, 'lt', B.const(0), f.data[0][i], **(kwm if not kw.get('method') else kw))
             pnew = model.pressure(f.data)
             B.ob('pressure>0[%d]' % i, 'lt', B.const(0), pnew[i], meta={'sqrt_level': 0})
+
+
+def _hll_chain(cfg, B, model, mname, prim, rhs, f, dt, dx, n):
+    """lemma chain for the mass (depth / density) update of the HLL-type fluxes, every link a solver query on the real terms:
+       A  the code's mass flux at face f is  m_L*alpha_f - m_R*beta_f  with alpha = sR(uL-sL)/(sR-sL), beta = (-sL)(sR-uR)/(sR-sL)
+       B  0 <= alpha, 0 <= beta, dt*alpha < dx/2, dt*beta <= dx/2
+       C  with alpha, beta CUT to variables that only satisfy B:  m_i' = m_i(1 - lam(alpha+ + beta-)) + lam m_{i+1} beta+ + lam m_{i-1} alpha- > 0
+    For hlle the wave speeds also contain the Roe-average speeds; that dt respects them too (dt*sR <= dx/2, dt*(-sL) <= dx/2) is then an
+    explicit ASSUMPTION (the property's CFL condition is written with the cell speeds only)."""
+    np = B.np
+    m = prim[0]                       # h or rho
+    PL, PR = rhs.pL, rhs.pR           # face states actually used by the flux (first order: cell states, ghost states at the walls)
+    alphas, betas = [], []
+    nf = n + 1
+    mLs, mRs = [], []
+    for fc in range(nf):
+        mL_, mR_ = PL[0][fc], PR[0][fc]
+        uL, uR = PL[1][fc], PR[1][fc]
+        mLs.append(mL_)
+        mRs.append(mR_)
+        if mname == 'shallowwater':
+            cL, cR = np.sqrt(model.g * mL_), np.sqrt(model.g * mR_)
+            sL = np.minimum(0., np.minimum(uL - cL, uR - cR))
+            sR = np.maximum(0., np.maximum(uL + cL, uR + cR))
+            extra = []
+        else:
+            g = model.gamma
+            pL, pR = PL[2][fc], PR[2][fc]
+            cL, cR = np.sqrt(g * pL / mL_), np.sqrt(g * pR / mR_)
+            HL = g / (g - 1) * pL / mL_ + uL * uL / 2
+            HR = g / (g - 1) * pR / mR_ + uR * uR / 2
+            w = np.sqrt(mR_ / mL_)
+            uRoe = (uL + uR * w) / (1 + w)
+            cRoe = np.sqrt((g - 1) * ((HL + HR * w) / (1 + w) - uRoe * uRoe / 2))
+            sL = np.minimum(0., np.minimum(uRoe - cRoe, uL - cL))
+            sR = np.maximum(0., np.maximum(uRoe + cRoe, uR + cR))
+            extra = [dt * sR <= dx[0] / 2, dt * (-sL) <= dx[0] / 2]
+            B.note('hlle: ASSUMED that the time step also respects the Roe-average wave speeds (dt*sR <= dx/2, dt*|sL| <= dx/2)')
+        al = sR * (uL - sL) / (sR - sL)
+        be = (-sL) * (sR - uR) / (sR - sL)
+        alphas.append(al)
+        betas.append(be)
+        Ff = rhs.flux[0][fc]
+        B.ob('chain-A:mass-flux=mL*alpha-mR*beta[%d]' % fc, 'eq', Ff, mL_ * al - mR_ * be, method='sweep')
+        kwb = dict(meta={'sqrt_level': 0}, assume=extra, timeout_ms=min(cfg.get('timeout_ms', 20000), 20000) if mname != 'shallowwater' else None)
+        B.ob('chain-B:alpha>=0[%d]' % fc, 'le', B.const(0), al, **kwb)
+        B.ob('chain-B:beta>=0[%d]' % fc, 'le', B.const(0), be, **kwb)
+        B.ob('chain-B:dt*alpha<dx/2[%d]' % fc, 'lt', dt * al, dx[0] / 2, **kwb)
+        B.ob('chain-B:dt*beta<=dx/2[%d]' % fc, 'le', dt * be, dx[0] / 2, **kwb)
+    if not B.symbolic:
+        return
+    # C: cut alpha, beta to variables constrained by B only
+    av = [B.var('cutA%d' % fc, 0.0, 1.0) for fc in range(nf)]
+    bv = [B.var('cutB%d' % fc, 0.0, 1.0) for fc in range(nf)]
+    facts = []
+    for fc in range(nf):
+        facts += [av[fc] >= 0, bv[fc] >= 0, dt * av[fc] < dx[0] / 2, dt * bv[fc] <= dx[0] / 2]
+    if cfg['bc'] == 'per':
+        facts += [av[0] == av[n], bv[0] == bv[n]]
+    lam = dt / dx[0]
+    for i in range(n):
+        fp, fm = i + 1, i          # faces right / left of cell i
+        new = m[i] - lam * ((mLs[fp] * av[fp] - mRs[fp] * bv[fp]) - (mLs[fm] * av[fm] - mRs[fm] * bv[fm]))
+        B.ob('chain-C:mass>0-from-A-and-B[%d]' % i, 'lt', B.const(0), new, assume=facts, replayable=False)
